@@ -64,6 +64,7 @@ impl TraitGenerics {
             params: &self.params,
             impl_t: None,
             takes_self_by_value: TakesSelfByValue(false),
+            user_trait_impl: false,
         }
     }
 
@@ -85,6 +86,7 @@ impl TraitGenerics {
                 TraitDependencyMode::Concrete(_) => None,
             },
             takes_self_by_value,
+            user_trait_impl: false,
         }
     }
 
@@ -97,6 +99,7 @@ impl TraitGenerics {
             params: &self.params,
             impl_t: Some(&idents.impl_t),
             takes_self_by_value,
+            user_trait_impl: true,
         }
     }
 
@@ -159,6 +162,9 @@ pub struct ParamsGenerator<'g> {
     params: &'g syn::punctuated::Punctuated<syn::GenericParam, syn::token::Comma>,
     impl_t: Option<&'g syn::Ident>,
     takes_self_by_value: TakesSelfByValue,
+    // The header of the impl of an entraited trait repeats the generic parameters the user wrote on the trait:
+    // its lifetimes have to be declared before `impl_t`, and defaults are not allowed there.
+    user_trait_impl: bool,
 }
 
 impl quote::ToTokens for ParamsGenerator<'_> {
@@ -169,6 +175,14 @@ impl quote::ToTokens for ParamsGenerator<'_> {
             syn::token::Comma::default(),
             syn::token::Gt::default(),
         );
+
+        if self.user_trait_impl {
+            for param in self.params {
+                if matches!(param, syn::GenericParam::Lifetime(_)) {
+                    punctuator.push(param);
+                }
+            }
+        }
 
         if let Some(impl_t) = &self.impl_t {
             punctuator.push_fn(|stream| {
@@ -201,7 +215,26 @@ impl quote::ToTokens for ParamsGenerator<'_> {
         }
 
         for param in self.params {
-            punctuator.push(param);
+            if !self.user_trait_impl {
+                punctuator.push(param);
+                continue;
+            }
+            match param {
+                syn::GenericParam::Lifetime(_) => {}
+                syn::GenericParam::Type(type_param) if type_param.default.is_some() => {
+                    let mut type_param = type_param.clone();
+                    type_param.eq_token = None;
+                    type_param.default = None;
+                    punctuator.push(type_param);
+                }
+                syn::GenericParam::Const(const_param) if const_param.default.is_some() => {
+                    let mut const_param = const_param.clone();
+                    const_param.eq_token = None;
+                    const_param.default = None;
+                    punctuator.push(const_param);
+                }
+                param => punctuator.push(param),
+            }
         }
     }
 }
